@@ -50,6 +50,74 @@ def layoutRxV0 (tn fn : Nat) (rssi toa256 : Int) (bits pad : List Nat) : List Na
 def layoutRxV1 (tn fn : Nat) (rssi toa256 : Int) (nope mod tsc : Nat) (ci : Int) (bits : List Nat) : List Nat :=
   [hdrOctet 1 tn] ++ be32 fn ++ [(-rssi).toNat] ++ be16s toa256 ++ [mtsOctet nope mod tsc] ++ be16s ci ++ bits
 
+/-! ### version 2 (primary part + batched sub-PDUs) -/
+
+/-- field values of one part of a v2 Rx PDU (the primary part ignores `shadow`, sub-PDUs have no FN) -/
+structure RxPart where
+  tn : Nat
+  batch : Nat
+  shadow : Nat
+  trxn : Nat
+  nope : Nat
+  mod : Nat
+  tsc : Nat
+  rssi : Int
+  toa256 : Int
+  cir : Int
+  bits : List Nat
+
+/-- field values of one part of a v2 Tx PDU -/
+structure TxPart where
+  tn : Nat
+  batch : Nat
+  shadow : Nat
+  trxn : Nat
+  nope : Nat
+  mod : Nat
+  tsc : Nat
+  pwr : Nat
+  scpir : Int
+  bits : List Nat
+
+/-- field ranges -/
+def RxPart.valid (p : RxPart) : Prop :=
+  p.tn < 8 ∧ p.batch < 2 ∧ p.shadow < 2 ∧ p.trxn < 64 ∧ p.nope < 2 ∧ p.mod < 16 ∧ p.tsc < 8
+  ∧ (-255 ≤ p.rssi ∧ p.rssi ≤ 0) ∧ (-32768 ≤ p.toa256 ∧ p.toa256 ≤ 32767) ∧ (-32768 ≤ p.cir ∧ p.cir ≤ 32767)
+
+def TxPart.valid (p : TxPart) : Prop :=
+  p.tn < 8 ∧ p.batch < 2 ∧ p.shadow < 2 ∧ p.trxn < 64 ∧ p.nope < 2 ∧ p.mod < 16 ∧ p.tsc < 8
+  ∧ p.pwr < 256 ∧ (-128 ≤ p.scpir ∧ p.scpir ≤ 127)
+
+/-- octets 0..1 of the primary part: VER=2 | RES | TN, BATCH | RES | TRXN -/
+def hdr2Primary (tn batch trxn : Nat) : List Nat := [2 * 16 + tn, batch * 128 + trxn]
+
+/-- octets 0..1 of a batched sub-PDU: RES(4) | RES | TN, BATCH | SHADOW | TRXN -/
+def hdr2Batched (tn batch shadow trxn : Nat) : List Nat := [tn, batch * 128 + shadow * 64 + trxn]
+
+def i8 (x : Int) : Nat := (x % 256).toNat
+
+def layoutV2RxPrimary (fn : Nat) (p : RxPart) : List Nat :=
+  hdr2Primary p.tn p.batch p.trxn ++ [mtsOctet p.nope p.mod p.tsc] ++ [(-p.rssi).toNat] ++ be16s p.toa256 ++ be16s p.cir
+    ++ be32 fn ++ (if p.nope = 0 then p.bits else [])
+
+def layoutV2RxBatched (p : RxPart) : List Nat :=
+  hdr2Batched p.tn p.batch p.shadow p.trxn ++ [mtsOctet p.nope p.mod p.tsc] ++ [(-p.rssi).toNat] ++ be16s p.toa256
+    ++ be16s p.cir ++ (if p.nope = 0 then p.bits else [])
+
+def layoutV2Rx (fn : Nat) (p : RxPart) (subs : List RxPart) : List Nat :=
+  layoutV2RxPrimary fn p ++ subs.flatMap layoutV2RxBatched
+
+def layoutV2TxPrimary (fn : Nat) (p : TxPart) : List Nat :=
+  hdr2Primary p.tn p.batch p.trxn ++ [mtsOctet p.nope p.mod p.tsc] ++ [p.pwr] ++ [i8 p.scpir] ++ [0, 0, 0]
+    ++ be32 fn ++ (if p.nope = 0 then p.bits else [])
+
+def layoutV2TxBatched (p : TxPart) : List Nat :=
+  hdr2Batched p.tn p.batch p.shadow p.trxn ++ [mtsOctet p.nope p.mod p.tsc] ++ [p.pwr] ++ [i8 p.scpir] ++ [0, 0, 0]
+    ++ (if p.nope = 0 then p.bits else [])
+
+def layoutV2Tx (fn : Nat) (p : TxPart) (subs : List TxPart) : List Nat :=
+  layoutV2TxPrimary fn p ++ subs.flatMap layoutV2TxBatched
+
 /-! ### what the hand-written message codec (data_msg.py) puts on the wire for version 1 -/
 
 /-- `Modulation` of the message codec: (coding, burst length) -/
